@@ -4,6 +4,8 @@ package main
 // the table of DESIGN §3/C02.
 
 import (
+	"strings"
+
 	"github.com/intuitivelabs/sipsp"
 )
 
@@ -35,6 +37,55 @@ func (s seqTrie) Expand(st any, depth int) []Frag {
 		}
 	}
 	return fr
+}
+
+// chainTrie: one input given as a fixed sequence of fragments, a trie node after each fragment only.
+type chainTrie struct{ Frags [][]byte }
+
+func (c chainTrie) Root() any { return 0 }
+func (c chainTrie) Expand(st any, depth int) []Frag {
+	n := st.(int)
+	if n >= len(c.Frags) {
+		return nil
+	}
+	return []Frag{{B: c.Frags[n], Next: n + 1, Coarse: true}}
+}
+
+// longChain: head + fill pattern repeated + tail, about 63,000 bytes, with chunk boundaries at 1000, 2000, 4000, ...,
+// 32000 bytes (doubling: whatever length a limit or a counter width is tied to, some boundary pair straddles it with
+// less than that length in between), at the end of the fill and at the end of the tail.
+func longChain(head, fill, tail string) chainTrie {
+	k := (63000 - len(head)) / len(fill)
+	text := head + strings.Repeat(fill, k) + tail
+	var fr [][]byte
+	prev := 0
+	for _, cut := range []int{1000, 2000, 4000, 8000, 16000, 32000, len(head) + k*len(fill), len(text)} {
+		fr = append(fr, []byte(text[prev:cut]))
+		prev = cut
+	}
+	return chainTrie{fr}
+}
+
+// longMsgChains: messages with one very long element each.
+func longMsgChains() []TrieGen {
+	rl := "INVITE sip:a@b SIP/2.0\r\n"
+	std := "Via: SIP/2.0/UDP h;branch=z9hG4bK1\r\nFrom: <sip:a@b>;tag=1\r\nTo: <sip:c@d>\r\nCall-ID: x@y\r\nCSeq: 1 INVITE\r\n"
+	end := "\r\nl: 0\r\n\r\n"
+	return []TrieGen{
+		longChain(rl+std+"X-Blob: ", "a", end),
+		longChain(rl+std+"X", "a", ": v"+end),
+		longChain(rl+"From: \"", "a", "\" <sip:a@b>;tag=1\r\nTo: <sip:c@d>\r\nCSeq: 1 INVITE"+end),
+		longChain(rl+"Call-ID: ", "a1-", "\r\nCSeq: 1 INVITE"+end),
+		longChain("INVITE sip:", "a", "@h SIP/2.0\r\n"+std+"l: 0\r\n\r\n"),
+		longChain("SIP/2.0 200 ", "a ", "\r\n"+std+"l: 0\r\n\r\n"),
+		longChain(rl+std+"Contact: <sip:0@h>", ", <sip:a@b>;expires=7", end),
+		longChain(rl+std+"l: 62000\r\n\r\n", "b", ""),
+		longChain(rl+std+"Subject: s", "\r\n a", end),
+		longChain(rl+std+"Contact: <sip:a@b>;x=", "a", ";expires=5"+end),
+		longChain(rl+"To: <sip:", "a", "@h>;tag=2\r\nFrom: <sip:a@b>;tag=1\r\nCSeq: 1 INVITE"+end),
+		longChain(rl+"Via: SIP/2.0/UDP h;branch=z9hG4bK", "a", "\r\nFrom: <sip:a@b>;tag=1\r\nCSeq: 1 INVITE"+end),
+		longChain(rl+std, "X-H: v\r\n", "l: 0\r\n\r\n"),
+	}
 }
 
 func bs(ss ...string) [][]byte {
@@ -93,6 +144,10 @@ func nameAddrSpaces(r *Run) []space {
 	}
 	sp = append(sp, substSpace("name-addr", []string{"\"A \\\" B\" <sip:a@b;x=1>;tag=t1;expires=5 ;q=0.5\r\nX", "Bob  <sip:b@c> ; lr\r\n ;x = \"q;\"\r\nX", "sip:c@d;tag=z;\r\nX", "* \r\nX"},
 		[]Cfg{{HdrType: int(sipsp.HdrContact), HdrCap: -1, ValCap: -1}, {HdrType: int(sipsp.HdrFrom), HdrCap: -1, ValCap: -1, Offs: 3, Junk: "a"}}))
+	sp = append(sp, space{name: "name-addr/long-elements-63k", gen: unionTrie{[]TrieGen{
+		longChain("\"", "a", "\" <sip:a@b>;tag=1\r\nX"), longChain("<sip:", "a", "@h>;tag=1\r\nX"), longChain("<sip:a@b>;x=", "a", ";expires=5\r\nX"), longChain("<sip:a@b>", ";p=1", "\r\nX"),
+		longChain("Bob ", "x ", "<sip:a@b>\r\nX"), longChain("sip:a@b;tag=", "a", "\r\nX"), longChain("<sip:a@b>;x=\"", "a", "\";q=0.5\r\nX"), longChain("<sip:a@b>", " \r\n ", ";tag=1\r\nX"),
+	}}, cfgs: []Cfg{{HdrType: int(sipsp.HdrContact), HdrCap: -1, ValCap: -1}, {HdrType: int(sipsp.HdrFrom), HdrCap: -1, ValCap: -1, Offs: 3, Junk: "a"}}, beyondErr: 1, beyondOk: 1, split: 1})
 	return sp
 }
 
@@ -316,5 +371,12 @@ func hdrSpaces(r *Run) []space {
 	sp = append(sp, space{name: "hdr/frags", gen: seqTrie{Menu: strs(menu), K: 2, Term: strs(blankMenu), NoTermAtRoot: false}, cfgs: cfgs, beyondErr: 2, beyondOk: 2, split: 2})
 	sp = append(sp, substSpace("hdr", []string{"From : \"W\" <sip:w@s>;tag=ws\r\nCSeq: 7 ACK\r\nl: 2\r\n\r\n", "m: <sip:a@b>;expires=30, sip:c@d;q=0.7\r\nSubject: \r\nX-Gen: a\r\n b\r\n\r\n", "Call-ID:\n x\nExpires:60\nv: SIP/2.0/UDP h;branch=1\n\n"},
 		[]Cfg{cfgV, {HdrCap: 1, ValCap: 1, WithVals: true, Offs: 3, Junk: "crlf"}, cfgNil}))
+	// header blocks of about 63,000 bytes with one very long element each (chunk boundaries at doubling positions)
+	end := "\r\nl: 0\r\n\r\n"
+	sp = append(sp, space{name: "hdr/long-elements-63k", gen: unionTrie{[]TrieGen{
+		longChain("X-Blob: ", "a", end), longChain("X", "a", ": v"+end), longChain("From: \"", "a", "\" <sip:a@b>;tag=1"+end), longChain("Call-ID: ", "a1-", end),
+		longChain("Contact: <sip:0@h>", ", <sip:a@b>;expires=7", end), longChain("Subject: s", "\r\n a", end), longChain("m: <sip:a@b>;x=", "a", ";expires=5"+end),
+		longChain("v: SIP/2.0/UDP h;branch=z9hG4bK", "a", end), longChain("", "X-H: v\r\n", "l: 0\r\n\r\n"), longChain("CSeq: 1 ", "A", end), longChain("P-Asserted-Identity: <sip:0@h>", ",<tel:1>", end),
+	}}, cfgs: []Cfg{cfgV, cfgNil, {HdrCap: 1, ValCap: 1, WithVals: true, Offs: 3, Junk: "crlf"}}, beyondErr: 1, beyondOk: 1, split: 1})
 	return sp
 }
